@@ -15,6 +15,7 @@ pub mod c12;
 pub mod c13;
 pub mod c14;
 pub mod c15;
+pub mod c16;
 pub mod c17;
 pub mod c18;
 pub mod c19;
@@ -36,6 +37,7 @@ pub fn dispatch(ctx: &Ctx, replay: Option<String>) -> ! {
         "C13" => c13::run(ctx, replay),
         "C14" => c14::run(ctx, replay),
         "C15" => c15::run(ctx, replay),
+        "C16" => c16::run(ctx, replay),
         "C17" => c17::run(ctx, replay),
         "C18" => c18::run(ctx, replay),
         "C19" => c19::run(ctx, replay),
